@@ -485,7 +485,9 @@ pub fn random_seq(rng: &mut Rng, kinds: &[Kind], len: usize, prefix: &str, onewa
             let mut r = Req::new(k, Flags { more, oneway }, &format!("{}{}", prefix, i));
             r.explicit_false = rng.chance(1, 8);
             if rng.chance(1, 60) {
-                r.pad = *rng.pick(&[8_000usize, 9_000, 66_000, 200_000]);
+                // sizes around the thresholds an implementation might have: read buffers (8 KiB,
+                // 64 KiB) and "reasonable message" limits (1 MiB, 4 MiB)
+                r.pad = if rng.chance(1, 12) { *rng.pick(&[1_100_000usize, 4_300_000]) } else { *rng.pick(&[8_000usize, 9_000, 66_000, 200_000]) };
             }
             r
         })
